@@ -12,10 +12,16 @@ cd $WT
 git checkout -q -- . 2>/dev/null; git apply SEED/patch.diff || { echo "$P: patch does not apply to a clean worktree"; exit 2; }
 RUN=$(ls SEED/demo/run.sh 2>/dev/null)
 [ -n "$RUN" ] || { echo "$P: no demo/run.sh"; exit 2; }
+# some demos take the compiler binary as an argument and ship a saved unpatched build instead of rebuilding
+UNP=$(ls $WT/SEED/bin/pavexc.without_patch $WT/target/debug/pavexc-unpatched 2>/dev/null | head -1)
 (cd SEED/demo && timeout 3000 bash ./run.sh) > /var/tmp/w5/$P-confirm-with.log 2>&1; RW=$?
-git apply -R SEED/patch.diff
-(cd SEED/demo && timeout 3000 bash ./run.sh) > /var/tmp/w5/$P-confirm-without.log 2>&1; RWO=$?
-git apply SEED/patch.diff
+if [ -n "$UNP" ]; then
+  (cd SEED/demo && timeout 3000 bash ./run.sh $UNP) > /var/tmp/w5/$P-confirm-without.log 2>&1; RWO=$?
+else
+  git apply -R SEED/patch.diff
+  (cd SEED/demo && timeout 3000 bash ./run.sh) > /var/tmp/w5/$P-confirm-without.log 2>&1; RWO=$?
+  git apply SEED/patch.diff
+fi
 CRATES=$(grep '^+++ b/' SEED/patch.diff | sed 's#^+++ b/##' | while read f; do d=$(dirname $f); while [ "$d" != "." ] && [ ! -f "$d/Cargo.toml" ]; do d=$(dirname $d); done; [ -f "$d/Cargo.toml" ] && grep -m1 '^name' $d/Cargo.toml | sed 's/name *= *"\(.*\)"/\1/'; done | sort -u)
 RT=0
 for c in $CRATES; do
